@@ -1,17 +1,17 @@
-\* quick tier: two mountpoints, one blob (shared layer object), three calls, two in flight, prefetch on, bg fetch off
+\* generation, two callers on different mountpoints (one Mount in flight at a time)
 CONSTANTS
     MPs = {"m1", "m2"}
     Blobs = {"b1"}
-    Labs = {"ok", "bad", "skip", "malformed"}
+    Labs = {"ok", "bad"}
     Ops = {"Mount", "Check", "Unmount"}
     MaxCalls = 3
     MaxConc = 2
     MaxObj = 2
     SameMp = FALSE
-    OneMount = FALSE
+    OneMount = TRUE
     AllowNoVerif = TRUE
     DisableVerif = FALSE
-    NoPrefetch = FALSE
+    NoPrefetch = TRUE
     NoBgFetch = TRUE
     PreRes = FALSE
     Expiry = FALSE
@@ -23,8 +23,7 @@ CONSTANTS
     CheckOwnKey = TRUE
     DoneAlways = TRUE
     BgRespectsPrio = TRUE
-SPECIFICATION Spec
+INIT GenInit
+NEXT GenNext
 VIEW core
-INVARIANTS TypeOK MountedIffInMap MountedLayerAlive NoUnverifiedMountUnlessAllowed NoUnverifiedInMap DoDoneBalanced
-PROPERTIES FailedMountLeavesNothing UnmountReleasesLayer CheckReachesOwnLayer BackgroundFetchOnlyAfterMountReturns
 CHECK_DEADLOCK FALSE
